@@ -54,7 +54,8 @@ def _verify_one(args):
             for f in o["failed"]:
                 fails.append({"status": f.status, "detail": f.detail, "model": f.model_txt, "meta": f.meta,
                               "goal": str(f.goal)[:2000], "inputs": getattr(f, "inputs", None)})
-            obls[n] = {"kind": o["kind"], "vcs": o["vcs"], "time": o["time"], "props": o["props"], "failed": fails}
+            obls[n] = {"kind": o["kind"], "vcs": o["vcs"], "time": o["time"], "props": o["props"], "failed": fails,
+                       "vacuous": bool(o.get("vacuous"))}
         return {"key": key, "status": r.status, "reason": r.reason, "obligations": obls, "paths": r.paths,
                 "solver_time": r.solver_time, "wall": r.wall, "sha256": r.sha256, "inlined": sorted(r.inlined),
                 "used_contracts": sorted(r.used_contracts), "used_trusted": sorted(r.used_trusted),
@@ -200,6 +201,10 @@ def run_property(pid, tier, seed, jobs):
             n_obl += 1
             n_vcs += o["vcs"]
             by_kind[o["kind"]] = by_kind.get(o["kind"], 0) + 1
+            if not o["failed"] and o.get("vacuous"):
+                undecided.append((name, "vacuous: every path VC of this obligation lies on an impossible path "
+                                        "(contradictory assumptions?) - nothing was checked"))
+                continue
             if not o["failed"]:
                 n_ok += 1
                 if len(samples) < 6:
